@@ -38,6 +38,7 @@ type Store struct {
 	log  []entry
 
 	FailGet    map[int]bool // ordinals of Get calls that fail
+	GetLimit   int          // > 0: Get calls beyond this ordinal fail (bounds traversals of a store made cyclic by corruption)
 	FailCommit map[int]bool // ordinals of batch commits that fail (nothing applied)
 	Corrupt    func(k, v []byte) []byte
 	St         Stats
@@ -49,6 +50,10 @@ func (s *Store) Get(k []byte) ([]byte, error) {
 	s.mu.Lock()
 	defer s.mu.Unlock()
 	s.St.Gets++
+	if s.GetLimit > 0 && s.St.Gets > s.GetLimit {
+		s.St.GetErrs++
+		return nil, ErrInjected
+	}
 	if s.FailGet[s.St.Gets] {
 		s.St.GetErrs++
 		return nil, ErrInjected
